@@ -5,6 +5,7 @@ import (
 	"fmt"
 
 	datatransfer "github.com/filecoin-project/go-data-transfer/v2"
+	"github.com/filecoin-project/go-data-transfer/v2/message"
 
 	"verif/doubles"
 	"verif/mc"
@@ -44,7 +45,7 @@ func c08(x *mc.Cell, pull bool, limit uint64, k, depth, maxDev int) {
 					x.Violate("C08", fmt.Sprintf("%s;pull=%v", sig, pull), fmt.Sprintf("pull=%v initial-limit=%d sizes=%v ops=%v: %s", pull, limit, sizes, log, msg), rep())
 				}
 				for step := 0; step < depth; step++ {
-					ch := c.Choose(8, fmt.Sprintf("op%d", step))
+					ch := c.Choose(9, fmt.Sprintf("op%d", step))
 					st0, err := n.Vec(chid)
 					if err != nil {
 						panic(err)
@@ -217,6 +218,26 @@ func c08(x *mc.Cell, pull bool, limit uint64, k, depth, maxDev int) {
 						ex.Premise = true
 						if after.Status != datatransfer.Failed || !closed {
 							viol("reject-not-failed-or-not-closed", fmt.Sprintf("status=%s closed=%v", datatransfer.Statuses[after.Status], closed))
+						}
+					case ch == 8: // the initiator asks to resume (it was never paused, or repeats its resume)
+						mk := n.Mark()
+						_, sig := n.H().OnRequestReceived(chid, doubles.Recode(message.UpdateRequest(chid.ID, false)).(datatransfer.Request))
+						mc.Wait()
+						d := n.Since(mk)
+						after, _ := n.Vec(chid)
+						log = append(log, fmt.Sprintf("initiator-resume->%v", sig))
+						if st0.RPaused && l != 0 && t >= l {
+							// paused at its limit: only a validation update may let payload progress again
+							ex.Premise = true
+							resumed := false
+							for _, tc := range d.TCalls {
+								if tc.Op == "resume" && tc.Chid == chid {
+									resumed = true
+								}
+							}
+							if sig != datatransfer.ErrPause || resumed || !after.RPaused {
+								viol("initiator-resume-unpauses-limit-paused-responder", fmt.Sprintf("the responder is paused at its limit (progress %d, limit %d); the initiator's resume message was answered %v (want the pause signal), transport resumed=%v, responder paused afterwards=%v", t, l, sig, resumed, after.RPaused))
+							}
 						}
 					case ch == 7: // process restart
 						img := n.DS.Image()
